@@ -422,8 +422,9 @@ Definition read_sexpr (s : string) : rres val :=
 
 (** read_wal_sexprs: optional shebang line, then white space only or a sequence of expressions *)
 Definition skip_shebang (s : string) : string :=
-  let t := snd (span_p is_pyspace_re s) in
-  match t with
+  (* the terminal allows leading white space (\s*#![^\n]+\n) but the lexer takes white space at the start as an
+     _INTER token first, so only a text that begins with #! has its first line skipped *)
+  match s with
   | String "#"%char (String "!"%char r) =>
       let line := skip_line r in
       match r, line with
